@@ -26,7 +26,7 @@ public:
     using CellGroupClassTarget = typename TreeClassTarget::CellGroupClass;
 
     using SpacialConfiguration = TbfSpacialConfiguration<RealType, SpaceIndexType::Dim>;
-    using IndexType = typename TbfDefaultSpaceIndexType<RealType>::IndexType;
+    using IndexType = typename SpaceIndexType::IndexType;
 
 protected:
     const SpacialConfiguration configuration;
